@@ -25,6 +25,7 @@ from sa.pyfront import Program
 from sa.symex import Interp, flat_guards
 
 RULES = {
+    "R-C01-l": "correct caller-supplied counts are accepted for every input shape: no exception of from_array compares the counts with the number of rows (counts describe cells)",
     "R-C01-k": "the union kernel that merges the row sets of input values mapped to one category is a correct sorted-set union (imported from the C08 decision-table analysis: branches, no-overlap shortcuts, tail copies, returned prefix)",
     "R-C01-j": "from_array never divides by the share of uncommon rows while that share can be zero (every row at the common value, e.g. all values mapped onto it): the strategy choice is guarded against it",
     "R-C01-i": "the value mapping is applied exactly when one is given: with a mapping, the key of every construction store, the caller's explicit common value and the counts that elect the common value all go through it (counts by accumulation); without one, none does; to_array sizes its dtype from the entries' VALUES (coords[0])",
@@ -593,6 +594,38 @@ def rule_i(prog, rep):
                                   witness={"inputs": "iindex.from_array([0, 1, 2, 1], common=-1).to_array() -> OverflowError instead of the array"})
 
 
+def rule_l(prog, rep):
+    """R-C01-l: from_array accepts correct caller-supplied counts for every input shape.  Counts describe CELLS
+    (values.size); a validation that compares them with the number of ROWS (len(values), values.shape[0]) rejects exact
+    counts for every array with two or more columns."""
+    import ast
+    fi = prog.func("iindexes", "iindex.from_array")
+    where = fi.fq
+    found = 0
+    for st in ast.walk(fi.node):
+        if not isinstance(st, ast.If) or not any(isinstance(x, ast.Raise) for b in st.body for x in ast.walk(b)):
+            continue
+        t = st.test
+        mentions_counts = any(isinstance(n, ast.Name) and n.id == "counts" for n in ast.walk(t))
+        if not mentions_counts:
+            continue
+        found += 1
+        rows = [n for n in ast.walk(t) if (isinstance(n, ast.Call) and isinstance(n.func, ast.Name) and n.func.id == "len" and n.args and isinstance(n.args[0], ast.Name) and n.args[0].id == "values")
+                or (isinstance(n, ast.Subscript) and isinstance(n.value, ast.Attribute) and n.value.attr == "shape" and isinstance(n.slice, ast.Constant) and n.slice.value == 0)]
+        cells = [n for n in ast.walk(t) if isinstance(n, ast.Attribute) and n.attr == "size"]
+        cons = "from_array: caller-supplied counts are validated against the number of cells"
+        w = "%s@%d" % (where, st.lineno)
+        if rows and not cells:
+            rep.violated("R-C01-l", w, cons, "`%s` compares the counts with the number of ROWS: exact counts of a 2-D array (rows x columns cells) are rejected with an exception" % ast.unparse(t)[:70],
+                         witness={"inputs": "a = [[1, 2, 0], [0, 0, 1], [2, 0, 0], [0, 1, 0]]; from_array(a, counts={0: 7, 1: 3, 2: 2}) raises instead of building the index"})
+        elif cells:
+            rep.proved("R-C01-l", w, cons, ast.unparse(t)[:70])
+        else:
+            rep.undecided("R-C01-l", w, cons, "a raise depends on the supplied counts: `%s`" % ast.unparse(t)[:70])
+    if not found:
+        rep.proved("R-C01-l", where, "from_array raises nothing that depends on caller-supplied counts", "no such test", nontrivial=False)
+
+
 def main(tier):
     rep = core.Report("C01", level="other", rules=RULES, tier=tier,
                       declined="the round trip equals the input element for element, for every array and option (values); only four structural necessary conditions are decided")
@@ -608,6 +641,7 @@ def main(tier):
     rule_g_breaks(prog, rep)
     rule_j(prog, rep)
     rule_i(prog, rep)
+    rule_l(prog, rep)
     import c17
     st17 = {"events": 0, "mods": 0, "diagnostic": {}, "exceptions": {}, "regions": 0, "shortcuts": 0}
     for q17 in ("iindex.from_array", "iindex.to_array"):
